@@ -232,6 +232,7 @@ func (e *executor[R]) executeAsync(fn func(exec Execution[R]) (R, error), withEx
 		ctx, cancelFunc = context.WithCancel(ctx)
 	}
 	exec := newExecution[R](ctx)
+	exec.cancelFunc = cancelFunc
 	result := &executionResult[R]{
 		execution:  exec,
 		cancelFunc: cancelFunc,
